@@ -13,7 +13,7 @@ import (
 
 func init() {
 	register(&PropInfo{ID: "C13", Run: runC13, UseRace: true, Level: "exploration",
-		Rule:   "a run = one generated scenario (provider kind and capacities, cold/drained cache, entry point, recovery switch, 2-6 client tasks x 1-3 requests of kinds get/post-gzip/post-deflate/post-trunc/notfound/panic/early-close, payload and chunk sizes) executed under one seeded schedule; distinct = distinct (scenario hash, schedule-trace hash); non-trivial = at least one preemption happened while a pooled object was held, or a fault (truncated body, panic, early close) fired",
+		Rule:   "a run = one generated scenario (provider kind and capacities, cold/drained cache, entry point, recovery switch, 2-6 client tasks x 1-3 requests of kinds get/post-gzip/post-deflate/post-trunc/notfound/panic/early-close/client-gone/plain/hijack/manual (the documented encoding filter built on NewCompressingResponseWriter), payload and chunk sizes) executed under one seeded schedule; distinct = distinct (scenario hash, schedule-trace hash); non-trivial = at least one preemption happened while a pooled object was held, or a fault (truncated body, panic, early close, failing writer, connection take-over) fired",
 		Assume: []string{"sync.Pool's choice of object is outside the simulator; with that provider only identity-free verdicts are drawn"}})
 }
 
@@ -87,7 +87,7 @@ func genC13(x *Ctx) *c13Scen {
 		maxPayload = 70000
 	}
 	id := 0
-	kinds := []string{"get", "get", "post-gzip", "early-close", "post-trunc", "notfound", "panic", "post-deflate", "client-gone", "plain", "hijack"}
+	kinds := []string{"get", "get", "post-gzip", "early-close", "post-trunc", "notfound", "panic", "post-deflate", "client-gone", "plain", "hijack", "manual"}
 	aes := []string{"gzip", "deflate", "gzip", "deflate, gzip", ""}
 	tp.Repeat(2, nClients, 600, func(int) {
 		var reqs []*c13Req
@@ -232,6 +232,32 @@ func runC13(x *Ctx) {
 		resp.Write([]byte("tok=" + r.readTok))
 	}))
 	c.Add(ws)
+	// the documented per-route encoding filter (examples/encoding): user code builds the compressing
+	// writer itself, on a container without container-level encoding; same provider
+	c2 := restful.NewContainer()
+	c2.DoNotRecover(!sc.Recover)
+	ws2 := new(restful.WebService).Path("/m")
+	ws2.Route(ws2.GET("/data").Filter(func(req *restful.Request, resp *restful.Response, chain *restful.FilterChain) {
+		r := byID[ReqID(req.Request)]
+		coding := restful.ENCODING_GZIP
+		if strings.HasPrefix(r.AE, "deflate") {
+			coding = restful.ENCODING_DEFLATE
+		}
+		compress, err := restful.NewCompressingResponseWriter(resp.ResponseWriter, coding)
+		if err != nil {
+			r.hijackE = err.Error()
+			return
+		}
+		resp.ResponseWriter = compress
+		defer func() { compress.Close() }()
+		chain.ProcessFilter(req, resp)
+	}).To(func(req *restful.Request, resp *restful.Response) {
+		t := sim.Cur()
+		r := byID[ReqID(req.Request)]
+		t.Count("manual-encoding-filter-requests")
+		writeChunks(t, resp, r, len(r.payload))
+	}))
+	c2.Add(ws2)
 	// a plain http.Handler: through the ServeMux directly it is the Handle wrapper that encodes
 	c.Handle("/plain/", http.HandlerFunc(func(rw http.ResponseWriter, hr *http.Request) {
 		t := sim.Cur()
@@ -265,6 +291,8 @@ func runC13(x *Ctx) {
 					hr = NewReq("GET", "/p/early", hdr, nil, 0, r.ID)
 				case "hijack":
 					hr = NewReq("GET", "/p/hijack", hdr, nil, 0, r.ID)
+				case "manual":
+					hr = NewReq("GET", "/m/data", hdr, nil, 0, r.ID)
 				case "notfound":
 					hr = NewReq("GET", "/p/none", hdr, nil, 0, r.ID)
 				case "plain":
@@ -292,7 +320,9 @@ func runC13(x *Ctx) {
 					r.hw = sim.SimHijackWriter{SimWriter: r.w}
 					rw = r.hw
 				}
-				if sc.entry == 2 {
+				if r.Kind == "manual" {
+					r.escaped = Serve(c2, sc.entry%2, rw, hr)
+				} else if sc.entry == 2 {
 					func() {
 						defer func() { r.escaped = recover() }()
 						c.ServeMux.ServeHTTP(rw, hr)
@@ -372,6 +402,14 @@ func runC13(x *Ctx) {
 					}
 				} else if !bytes.Equal(got, r.payload) {
 					x.Violate("foreign-payload", "request %d (plain): decoded body (%d bytes, %q) is not its own payload (%d bytes)", r.ID, len(got), clip(string(got), 40), len(r.payload))
+				}
+			case "manual":
+				if r.hijackE != "" {
+					x.Violate("manual-writer-refused", "request %d: NewCompressingResponseWriter answered %q", r.ID, r.hijackE)
+				} else if enc == "" {
+					x.Violate("unlabelled", "request %d (manual): a response written through NewCompressingResponseWriter carries no Content-Encoding", r.ID)
+				} else if !bytes.Equal(got, r.payload) {
+					x.Violate("foreign-payload", "request %d (manual): decoded body (%d bytes, %q) is not its own payload (%d bytes)", r.ID, len(got), clip(string(got), 40), len(r.payload))
 				}
 			case "get", "early-close":
 				if !bytes.Equal(got, r.payload) {
